@@ -655,57 +655,81 @@ def segment_packing(ctx, facts, rule):
 def batch_origin(ctx, facts, rule):
     """The Batcher cuts records into batches of M; the proof batch it creates for index k must start at record k*M
     with the same M, otherwise positions computed from (record - first_record) land in the wrong slots."""
-    from rules.C13 import ieval, NoEval
-    ctx.rule(f"{rule} (origin): MaliciousDZKPValidator::new hands Batcher::new the same M = max_multiplications_per_gate that it gives every Batch::new, and batch k gets first_record = RecordId::from(k * M) (None only for the unlimited batch M = usize::MAX) - the product evaluated for k = 0..8, M = 1..8")
+    from rules.C13 import ieval, beval, guard_holds, NoEval
+    ctx.rule(f"{rule} (origin): MaliciousDZKPValidator::new hands Batcher::new the same M = max_multiplications_per_gate that it gives every Batch::new, and the first_record argument of Batch::new, evaluated as a function of (batch index k, M) whatever its form (`(M != MAX).then(|| ..)`, if / else, match), is Some(RecordId::from(k * M)) for M = 1..8, k = 0..8 and None for M = usize::MAX (the unlimited single batch)")
     root = "protocol::context::dzkp_validator::MaliciousDZKPValidator::<'a, B>::new"
     top = facts.bodies.get(root)
     tree = facts.tree(root)
     ctor = next((b for b in tree if b.kind == "Closure" and flow.find_calls(b, re.compile(r"dzkp_validator::Batch::new$"))), None)
-    inner = next((b for b in tree if b.kind == "Closure" and b is not ctor and flow.find_calls(b, re.compile(r"From::from$"))), None)
-    if top is None or ctor is None or inner is None:
-        return ctx.missing(rule, "MaliciousDZKPValidator::new and its batch constructor closures")
-    ctx.count(bodies=3)
+    if top is None or ctor is None:
+        return ctx.missing(rule, "MaliciousDZKPValidator::new and its batch constructor closure")
+    ctx.count(bodies=2)
     bn = flow.find_calls(top, re.compile(r"batcher::Batcher::<'a, B>::new$"))
     bc = flow.find_calls(ctor, re.compile(r"dzkp_validator::Batch::new$"))
-    ff = flow.find_calls(inner, re.compile(r"From::from$"))
-    ok, why = False, "constructor shape not recognised"
-    if len(bn) == 1 and len(bc) == 1 and len(ff) == 1:
-        m_top = flow.expr_of(top, bn[0][1]["args"][0], max_depth=4)
-        m_batch = flow.expr_of(ctor, bc[0][1]["args"][1], max_depth=4)
-        fr = flow.expr_of(ctor, bc[0][1]["args"][0], max_depth=6)
-        prod = flow.expr_of(inner, ff[0][1]["args"][0], max_depth=6)
-        same_m = m_top[0] == "arg" and m_batch[0] == "upvar" and flow.upvar_name(ctor, 0) is not None
-        guard = fr[0] == "call" and fr[1].endswith("bool>::then") and fr[2][0][0] == "bin" and fr[2][0][1] == "Ne" and ("const", 18446744073709551615) in fr[2][0][2:]
+    if len(bn) != 1 or len(bc) != 1:
+        return ctx.ob(rule, "batch-origin", False, "constructor shape not recognised (one Batcher::new, one Batch::new expected)", site_of(ctor))
+    MAXU = 18446744073709551615
+    m_top = flow.expr_of(top, bn[0][1]["args"][0], max_depth=4)
+    m_batch = flow.expr_of(ctor, bc[0][1]["args"][1], max_depth=4)
+    same_m = m_top[0] == "arg" and m_batch[0] == "upvar" and flow.upvar_name(ctor, 0) is not None
+    K = ("arg", 2)
+    old = flow.CLOSURE_DEFS
+    flow.CLOSURE_DEFS = True
+    try:
+        fr = flow.expr_of(ctor, bc[0][1]["args"][0], max_depth=8)
+
+        def payload(e, env):
+            """value of an expression that is RecordId::from(x) / x.into()"""
+            e = flow.strip_casts(e)
+            while e[0] == "call" and re.search(r"(From::from|Into::into)$", e[1]):
+                e = flow.strip_casts(e[2][0])
+            return ieval(e, env)
+
+        def first_record(k, M):
+            env = {K: k, m_batch: M}
+            if fr[0] == "call" and fr[1].endswith("bool>::then"):
+                cl = fr[2][1]
+                inner = facts.bodies.get(cl[1][1]) if cl[0] == "agg" and isinstance(cl[1], tuple) else None
+                if inner is None:
+                    raise NoEval("closure of bool::then not found")
+                if not beval(fr[2][0], env):
+                    return None
+                ienv = {}
+                for i, src in enumerate(cl[2]):
+                    nm = flow.upvar_name(inner, i)
+                    ienv[("upvar", nm)] = ieval(flow.strip_casts(src), env)
+                return payload(flow.expr_of(inner, {"cp": [0]}, max_depth=8), ienv)
+            if fr[0] == "agg" and isinstance(fr[1], tuple) and fr[1][0] == "std::option::Option":
+                return None if fr[1][1] == "None" else payload(fr[2][0], env)
+            if fr[0] == "place" and len(fr) == 2:
+                dom = ctor.dominators()
+                eg = flow.edge_guards(ctor)
+                vals = []
+                for bb, idx, d in ctor.defs().get(fr[1], []):
+                    if idx == "t" or d["k"] != "agg" or d.get("adt") != "std::option::Option":
+                        raise NoEval("first_record is assigned something other than Some(..) / None")
+                    if all(guard_holds(f, env) for tgt, f in eg if flow.dominates(dom, tgt, bb)):
+                        vals.append(None if d.get("vn") == "None" else payload(flow.expr_of(ctor, d["ops"][0], max_depth=8), env))
+                if len(vals) != 1:
+                    raise NoEval(f"{len(vals)} definitions of first_record apply")
+                return vals[0]
+            raise NoEval("first_record: " + str(fr)[:60])
+
         bad = None
         try:
-            # which captured variable of the inner closure is the batch index (the constructor's parameter) and which is M
-            idx = mm = None
-            old = flow.CLOSURE_DEFS
-            flow.CLOSURE_DEFS = True
-            try:
-                for bb2, idx2, s2 in ctor.iter_assigns():
-                    r2 = s2["r"]
-                    if r2["k"] == "agg" and r2.get("def") == inner.path:
-                        for i, o in enumerate(r2["ops"]):
-                            src = flow.expr_of(ctor, o, max_depth=4)
-                            nm = flow.upvar_name(inner, i)
-                            if src == ("arg", 2):
-                                idx = ("upvar", nm)
-                            elif src == m_batch:
-                                mm = ("upvar", nm)
-            finally:
-                flow.CLOSURE_DEFS = old
-            if idx is None or mm is None:
-                raise NoEval("first_record is not a function of (batch index, M)")
-            for k in range(9):
-                for M in range(1, 9):
-                    v = ieval(prod, {idx: k, mm: M})
+            for M in range(1, 9):
+                for k in range(9):
+                    v = first_record(k, M)
                     if v != k * M and bad is None:
                         bad = f"batch {k} with M = {M} starts at record {v}, the Batcher files records {k * M}..{k * M + M - 1} under it"
+            if bad is None and first_record(0, MAXU) is not None:
+                bad = "with an unlimited batch size (M = usize::MAX) first_record is not None: k * M overflows / the single batch is pinned to a record it does not start at"
         except NoEval as ex:
             bad = f"cannot evaluate first_record ({ex})"
-        ok = same_m and guard and bad is None
-        why = "Batcher and Batch use the same M; batch k starts at record k*M (None for the unlimited batch)" if ok else (bad or ("the batch size handed to the Batcher is not the M given to each Batch" if not same_m else "first_record is not guarded by M != usize::MAX"))
+    finally:
+        flow.CLOSURE_DEFS = old
+    ok = same_m and bad is None
+    why = "Batcher and Batch use the same M; batch k starts at record k*M (None for the unlimited batch)" if ok else (bad or "the batch size handed to the Batcher is not the M given to each Batch")
     ctx.ob(rule, "batch-origin", ok, why, site_of(ctor))
 
 
